@@ -28,6 +28,7 @@ def run(prog, chk):
     chk.decided += ["TrueType composites whose component 2x2 differs between masters are decomposed (gvar cannot vary a component's scale): the comparison covers all masters for every composite (R10.9 = R09.1)"]
     chk.decided += ["an existing mark class definition only stands for a (variable) anchor that equals it field by field (shared with C06) (R10.8)"]
     chk.decided += ["for a designspace the kerning groups are collected from every source's font, not from one master (a class pair of a master whose group the others lack keeps its value) (R10.7)"]
+    chk.decided += ["feature-writer objects keep no per-font state outside self.context (no memoising decorators, no attributes written outside __init__): a writer reused for the next designspace must not keep the previous one's sources (R10.11 = R08.7)"]
     chk.not_decided += ["gvar / HVAR / GPOS variation data computed by fontTools.varLib and feaLib", "numeric reproduction of the masters"]
     chk.guard(r101, prog, chk)
     chk.guard(r102, prog, chk)
@@ -41,6 +42,8 @@ def run(prog, chk):
     from .c09 import check_nonmatching_components
     chk.guard(check_nonmatching_components, prog, chk, "R10.9")
     chk.guard(r1010, prog, chk)
+    from .c08 import r087
+    chk.guard(r087, prog, chk, "R10.11")
 
 
 def _source_loops(prog, f: FuncInfo) -> List[ast.For]:
